@@ -119,7 +119,10 @@ def run(ctx, chk):
         FO = fi.params[4] if len(fi.params) > 4 else "flat_obs"
         shp = cn.show(shape) if shape else "?"
         ok = low is not None and cn.show(low) == f"{GB}[0]" and cn.show(high) == f"{GB}[1]" and \
-            shp == f"({FO} ? self.last_obs.flatten().shape : self.last_obs.obs_shape)"
+            shp in (f"({FO} ? self.last_obs.flatten().shape : self.last_obs.obs_shape)",
+                    # the tensor's own shape is obs_shape (Observation.__init__: np.zeros(obs_shape),
+                    # C09.dims)
+                    f"({FO} ? self.last_obs.flatten().shape : self.last_obs.shape)")
         detail = f"Box(low={cn.show(low) if low else None}, high={cn.show(high) if high else None}, " \
                  f"shape={shp})"
         dt = kw.get("dtype")
